@@ -25,6 +25,7 @@ var (
 
 // Conn is a fake net.Conn / naza connection.Connection that records every accepted write as one unit.
 type Conn struct {
+	chanSize, bufSize, readTo, writeTo int // properties set through Mod* (once each, as in naza)
 	Writes [][]byte
 	Calls  int
 	// Reject, if set, decides per write call whether it is rejected (fault schedule).
@@ -112,10 +113,35 @@ func (c *Conn) SetReadDeadline(t time.Time) error    { return nil }
 func (c *Conn) SetWriteDeadline(t time.Time) error   { return nil }
 func (c *Conn) Flush() error                         { return nil }
 func (c *Conn) Done() <-chan error                   { return nil }
-func (c *Conn) ModWriteChanSize(n int)               {}
-func (c *Conn) ModWriteBufSize(n int)                {}
-func (c *Conn) ModReadTimeoutMs(n int)               {}
-func (c *Conn) ModWriteTimeoutMs(n int)              {}
+
+// The Mod* methods follow naza's connection: each property may be set once; a second call panics
+// ("naza.connection: using in a wrong way").
+var errConnectionPanic = &connErr{"naza.connection: using in a wrong way"}
+
+func (c *Conn) ModWriteChanSize(n int) {
+	if c.chanSize > 0 {
+		panic(errConnectionPanic)
+	}
+	c.chanSize = n
+}
+func (c *Conn) ModWriteBufSize(n int) {
+	if c.bufSize > 0 {
+		panic(errConnectionPanic)
+	}
+	c.bufSize = n
+}
+func (c *Conn) ModReadTimeoutMs(n int) {
+	if c.readTo > 0 {
+		panic(errConnectionPanic)
+	}
+	c.readTo = n
+}
+func (c *Conn) ModWriteTimeoutMs(n int) {
+	if c.writeTo > 0 {
+		panic(errConnectionPanic)
+	}
+	c.writeTo = n
+}
 func (c *Conn) GetStat() connection.Stat              { return connection.Stat{} }
 
 var _ connection.Connection = (*Conn)(nil)
